@@ -1562,11 +1562,40 @@ impl<'a> Gen<'a> {
                     // wild jump
                     let t = self.tmp();
                     self.interesting_value(t);
-                    match self.rng.below(4) {
+                    match self.rng.below(7) {
                         0 => self.emit(op::jmp(t)),
                         1 => self.emit(op::jmpf(t, 0)),
                         2 => self.emit(op::jmpb(t, 0)),
-                        _ => self.emit(op::jal(self.val(), t, 0)),
+                        3 => self.emit(op::jal(self.val(), t, 0)),
+                        4 | 5 => {
+                            // a target exactly at / next to the end of memory
+                            let end: u64 = (1 << 26) + 4 * self.rng.below(3) - 4;
+                            self.load_const(t, end);
+                            if self.rng.bool() {
+                                self.emit(op::jal(self.val(), t, 0));
+                            } else {
+                                self.emit(op::sub(t, t, IS));
+                                self.emit(op::srli(t, t, 2));
+                                self.emit(op::jmp(t));
+                            }
+                        }
+                        _ => {
+                            // link and target in one register: the target is taken from the
+                            // link just written ($pc + 4 + 4 * imm), the old value must not count
+                            let k = self.rng.below(3) as u16;
+                            self.emit(op::jal(t, t, k));
+                            for _ in 0..k {
+                                self.emit(op::noop());
+                            }
+                        }
+                    }
+                } else if self.rng.chance(1, 6) {
+                    // the same on the ordinary path: skips `k` no-ops
+                    let t = self.tmp();
+                    let k = self.rng.below(3) as u16;
+                    self.emit(op::jal(t, t, k));
+                    for _ in 0..k {
+                        self.emit(op::noop());
                     }
                 }
             }
